@@ -213,7 +213,10 @@ BOUNDARY_CTX = [{"single": True, "units": [0], "size": 65536, "base": 0, "zero_m
                 {"single": True, "units": [0], "size": 8, "base": 10, "zero_mode": False},
                 {"single": True, "units": [0], "size": 8, "base": 10, "zero_mode": True},
                 {"single": True, "units": [0], "size": 16, "base": 0, "zero_mode": False},
-                {"single": False, "units": [1, 2], "size": 8, "base": 3, "zero_mode": False}]
+                {"single": False, "units": [1, 2], "size": 8, "base": 3, "zero_mode": False},
+                # contexts built with NO blocks: the default tables (four separate ones per unit)
+                {"single": True, "units": [0], "size": 65536, "base": 0, "zero_mode": True, "defaults": True},
+                {"single": False, "units": [1, 2], "size": 65536, "base": 0, "zero_mode": False, "defaults": True}]
 
 
 def pdu_at(r, kind, addr):
@@ -258,7 +261,10 @@ def short_write_pdus(r, size):
     offsets, where a decoder that reads 'as many words as are there' would not raise"""
     a = r.randrange(0, size - 6)
     regs = [r.randrange(1, 65536) for _ in range(3)]
-    return {15: L.pdu_write_coils(a, [r.randrange(2) for _ in range(r.choice([17, 20, 24]))]),
+    # (the coil write must be VALID when complete — inside the table — or no truncation of it could ever execute:
+    #  9..16 coils from an address that leaves room for them, i.e. two data bytes, cut after the first)
+    nc = r.choice([9, 12, 16])
+    return {15: L.pdu_write_coils(r.randrange(0, max(1, size - nc + 1)), [r.randrange(2) for _ in range(nc)]),
             16: L.pdu_write_regs(a, regs),
             23: L.pdu_rwm(r.randrange(0, size - 6), 2, a, regs),
             21: bytes([21, 13, 6, 0, 1, 0, 0, 0, 3]) + b"".join(bytes([v >> 8, v & 255]) for v in regs)}
